@@ -9,6 +9,7 @@ from ..lazy import LazyClass, self_attr, self_dict_key, is_self
 from ..paths import EventSets
 from ..expr import Inliner, nf, nf_text
 from .. import negzero as NZ
+from .. import spec as SP
 from . import lazyrules as LR
 from .C10 import get_alias
 
@@ -337,6 +338,33 @@ def inplace_data(repo, res, cls):
     return n
 
 
+def labels_fast_path(repo, res, cls):
+    """`labels` derived from the cached raw slices: one slot per label VALUE (None for missing values)."""
+    f = cls.lookup('labels')
+    want = [('labels_all = ' + nf_text('np.arange(len(self._raw_slices)) + 1'), 'candidate labels 1..len(raw slices)'),
+            ('labels = []', 'labels collected'),]
+    from .common import expect_stmt
+    for w, meaning in want:
+        expect_stmt(res, 'SPEC', f, w, 'labels fast path: ' + meaning)
+    loops = [n for n in ast.walk(f.node) if isinstance(n, ast.For)]
+    ok = len(loops) == 1 and nf(loops[0].iter) == nf_text('zip(labels_all, self._raw_slices, strict=True)') \
+        and any(isinstance(b, ast.If) and nf(b.test) == nf_text('slc is not None') for b in loops[0].body)
+    res.oblige('SPEC', 'labels fast path pairs label values with the RAW slices and skips the None slots', ok, nontrivial=True)
+    if not ok:
+        res.add(Finding('SPEC', f.fullname, 'labels fast path', f.loc,
+                        'SegmentationImage.labels: the fast path must pair 1..len(_raw_slices) with self._raw_slices (one slot per label '
+                        'value, None for missing values); pairing with the filtered `slices` renumbers the labels 1..N', {}))
+    rets = sorted(nf(r.value) for r in ast.walk(f.node) if isinstance(r, ast.Return))
+    ok = rets == sorted([nf_text('np.array(labels, dtype=self._data.dtype)'), nf_text('self._get_labels(self.data)')])
+    res.oblige('SPEC', 'labels returns the collected labels (array dtype) or np.unique of the non-zero pixels', ok, nontrivial=True)
+    if not ok:
+        res.add(Finding('SPEC', f.fullname, 'labels return', f.loc, f'SegmentationImage.labels returns {rets}', {}))
+    g = cls.lookup('slices')
+    SP.returns_match(repo, res, 'SPEC', f'{SEG}.slices', ['[slc for slc in self._raw_slices if slc is not None]'], 'the raw slices without the None slots')
+    h = cls.lookup('_raw_slices')
+    SP.returns_match(repo, res, 'SPEC', f'{SEG}._raw_slices', ['find_objects(self.data)', 'find_objects(self._data)'], 'scipy find_objects of the label array')
+
+
 def run(repo, tier):
     res = Result(PROP)
     cls = repo.get_class(SEG)
@@ -361,6 +389,13 @@ def run(repo, tier):
     labelset(repo, res, cls)
     dtype_preserved(repo, res, cls)
     inplace_data(repo, res, cls)
+    labels_fast_path(repo, res, cls)
+    # the two functions that seed a SegmentationImage from outside (anchored here as well)
+    from .C04 import labeller_input
+    from .C06 import merge_blocks, final_relabel
+    labeller_input(repo, res)
+    merge_blocks(repo, res)
+    final_relabel(repo, res)
     res.floor('L1', 500)
     res.floor('L2', 2)
     res.floor('COUPLED', 3)
